@@ -249,4 +249,14 @@ def r9_references(ctx):
         o["rule"] = "R9"
 
 
-RULES = [("R1", r1_trim_table), ("R2", r2_merge), ("R3", r3_expand), ("R4", r4_unknown_skipped), ("R5", r5_trimmer_in_sync), ("R6", r6_pieces_decoded_alike), ("R7", r7_skip_without_buffer), ("R8", r8_whitespace_notion), ("R9", r9_references)]
+def r10_cdata_terminators(ctx):
+    """text replaced by an equivalent CDATA section must read the same from any source: the CDATA / comment terminator
+    rows of the chunked scanner (C01 R3) are re-evaluated here"""
+    import c01
+    n0 = len(ctx.obs)
+    c01.r3_scanners(ctx)
+    for o in ctx.obs[n0:]:
+        o["site"] = "scanner:" + o["site"]
+        o["rule"] = "R10"
+
+RULES = [("R1", r1_trim_table), ("R2", r2_merge), ("R3", r3_expand), ("R4", r4_unknown_skipped), ("R5", r5_trimmer_in_sync), ("R6", r6_pieces_decoded_alike), ("R7", r7_skip_without_buffer), ("R8", r8_whitespace_notion), ("R9", r9_references), ("R10", r10_cdata_terminators)]
